@@ -72,8 +72,13 @@ def mc_inductive(run, tier):
 
 def mc_blockdep(run):
     lattice = None
-    for cfg, want in (("BlockDep_MC.cfg", "ok"), ("BlockDep_D5.cfg", "invariant"), ("BlockDep_W3.cfg", "invariant"),
-                      ("BlockDep_W0.cfg", "invariant")):
+    # Deep: the wide parameter lattice (kernels to 5 rows, stride 3, pads to 2, blocks to 4 rows, 3 depth slices, micro-block
+    # heights 1/2/4; 224 208 points at MaxH = 16, 1 194 912 at MaxH = 40), DeepD5: the D5 control on that lattice
+    deep = [("BlockDep_Deep.cfg", "ok"), ("BlockDep_DeepD5.cfg", "invariant")]
+    if run.tier != "quick":
+        deep.append(("BlockDep_Deep40.cfg", "ok"))
+    for cfg, want in [("BlockDep_MC.cfg", "ok"), ("BlockDep_D5.cfg", "invariant"), ("BlockDep_W3.cfg", "invariant"),
+                      ("BlockDep_W0.cfg", "invariant")] + deep:
         res = tlc.run("BlockDep", cfg, workers=16, timeout=900)
         if res["status"] != want:
             raise MachineryError("BlockDep %s: expected %s, got %s\n%s" % (cfg, want, res["status"], res["output"][-2000:]))
